@@ -13,6 +13,36 @@ BIG = [0, 1, 2, 255, 256, 65535, 65536, 2**31 - 1, 2**31, 2**32 - 1, 2**32, 2**3
 KNOWN_CROSS = "C06:cross-class-duplicate"
 
 
+def ssi_image(files_full, subseq, pk, al):
+    """SSI v3.0 file as documented in esl_ssi.c / the SSI format notes: big-endian integers, 64-bit offsets.
+    files_full: [(name as given to AddFile, fmt)], subseq: {fh: (bpl, rpl)}, pk: {key: (fh, r, d, L)}, al: {alias: key}"""
+    import struct
+    flen = max(len(n) for n, _ in files_full) + 1
+    plen = (max(len(k) for k in pk) + 1) if pk else 0
+    slen = (max(len(k) for k in al) + 1) if al else 0
+    frec, prec, srec = 16 + flen, 26 + plen, slen + plen
+    foff = 78
+    poff = foff + frec * len(files_full)
+    soff = poff + prec * len(pk)
+    out = struct.pack(">IIIHQQIIIIIIQQQ", 0xd3d3c9b3, 0, 8, len(files_full), len(pk), len(al), flen, plen, slen, frec, prec, srec, foff, poff, soff)
+    for fh, (name, fmt) in enumerate(files_full):
+        bpl, rpl = subseq.get(fh, (0, 0))
+        out += name.split(b"/")[-1].ljust(flen, b"\0") + struct.pack(">IIII", fmt, 1 if bpl > 0 and rpl > 0 else 0, bpl, rpl)
+    for k in sorted(pk):
+        fh, r, d, L = pk[k]
+        out += k.ljust(plen, b"\0") + struct.pack(">HQQQ", fh, r, d, L)
+    for a in sorted(al):
+        out += a.ljust(slen, b"\0") + al[a].ljust(plen, b"\0")[:plen]
+    return out
+
+
+def fnv64(b):
+    h = 0xcbf29ce484222325
+    for x in b:
+        h = ((h ^ x) * 0x100000001b3) & 0xffffffffffffffff
+    return h
+
+
 def hx(b):
     return b.hex() if b else "-"
 
@@ -112,7 +142,7 @@ class C06(Prop):
     theorems = ["EaselModel.Props.C06." + t for t in (
         "codec_roundtrip", "codec_bigendian", "bsearch_correct", "write_spec", "write_ok_iff_distinct", "write_dup_no_file",
         "written_file", "open_written", "findName_stored", "findName_alias_partial", "findName_absent", "findNumber_sorted",
-        "fileInfo_spec", "internal_eq_external", "history_write", "history_index_correct", "exCross_wf",
+        "fileInfo_spec", "internal_eq_external", "history_write", "history_index_correct", "history_alias_partial", "findSubseq_spec", "exCross_wf",
         "cross_class_duplicate_accepted")]
     claimed = True
     technique = ("Lean 4 proof about an executable model of esl_ssi.c (writer, on-disk layout, binary search, alias indirection) "
@@ -126,7 +156,7 @@ class C06(Prop):
     level_note = ("Known finding C06:cross-class-duplicate (an alias equal to a primary key is accepted and shadowed; proved as a counter-example, witness replayed on the real code each run): the alias lookup theorem carries the hypothesis "
                   "'alias is not a primary key' and Write's iff is per key class. Alias lookup also assumes AddAlias's documented precondition (target is a registered primary key). "
                   "Trusted: Lean kernel + propext/Classical.choice/Quot.sound; the hand model's fidelity is checked by the differential run, not proved; qsort, sort(1) in the POSIX locale, system(), stdio are modelled (sort = bytewise sort of the lines); "
-                  "little-endian host with 64-bit off_t; esl_ssi_FindSubseq is modelled and compared but has no theorem; corrupt index files are outside the property.")
+                  "little-endian host with 64-bit off_t; esl_ssi_FindSubseq's theorem is for stored primary keys with a registered file handle; corrupt index files are outside the property.")
     diverge_is_violation = True
     trusted_base = ["hand model of esl_ssi.c tied by exact differential run (h_ssi.c, ASan+UBSan build of the working tree): index bytes and all lookup results",
                     "Lean compiler/runtime for the executable driver", "gcc, glibc (strcmp, strncpy, qsort, printf/strtoull, stdio), sort(1)"]
@@ -263,6 +293,50 @@ class C06(Prop):
         ops.append("close")
         return {"name": name, "ops": ops, "sticky": 1}
 
+    def gen_malformed(self, rng, name):
+        """a small valid image with one header field damaged / truncated: esl_ssi_Open's failure cases"""
+        import struct
+        kg = KeyGen(rng, 12)
+        nfiles = rng.randint(1, 3)
+        files = [(kg.rand(1, 9, LETTERS + b"/."), rng.randrange(0, 100)) for _ in range(nfiles)]
+        pk = {k: (rng.randrange(nfiles), off(rng), off(rng), off(rng)) for k in kg.many(rng.randint(0, 5))}
+        al = {a: rng.choice(sorted(pk)) for a in kg.many(rng.randint(0, 3))} if pk else {}
+        img = bytearray(ssi_image(files, {0: (61, 60)} if rng.random() < 0.5 else {}, pk, al))
+        flen = struct.unpack(">I", img[30:34])[0]
+        frec = struct.unpack(">I", img[42:46])[0]
+        ops = ["new"]
+        def put(fmt, at, v):
+            b = bytearray(img); b[at:at + struct.calcsize(fmt)] = struct.pack(fmt, v); return bytes(b)
+        variants = [bytes(img)]
+        for _ in range(14):
+            r = rng.random()
+            if r < 0.25:
+                variants.append(bytes(img[:rng.choice([0, 1, 3, 4, 7, 8, 11, 12, 13, 14, 21, 22, 29, 30, 33, 37, 41, 45, 49, 53, 54, 61, 62, 69, 70, 77, 78,
+                                                       78 + flen - 1, 78 + flen, 78 + flen + 3, 78 + flen + 15, 78 + frec - 1, 78 + frec, len(img) - 1,
+                                                       rng.randrange(0, len(img) + 1)])]))
+            elif r < 0.35:
+                variants.append(put(">I", 0, rng.choice([0xb3c9d3d3, 0xd3d3c9b2, 0, 0xffffffff, 0xd3d3c9b3 ^ (1 << rng.randrange(32))])))
+            elif r < 0.47:
+                variants.append(put(">I", 8, rng.choice([0, 1, 4, 4, 7, 9, 16, 0xffffffff, 0x08000000])))
+            elif r < 0.57:
+                variants.append(put(">H", 12, rng.choice([0, 1, nfiles + 1, nfiles + 2, 255, 65535])))
+            elif r < 0.67:
+                variants.append(put(">I", 30, rng.choice([0, 1, max(0, flen - 1), flen + 1, flen + 16, 1000])))
+            elif r < 0.77:
+                variants.append(put(">I", 42, rng.choice([0, 1, frec - 1, frec + 1, 2 * frec, 0xffffffff, 0x80000000])))
+            elif r < 0.87:
+                variants.append(put(">Q", 54, rng.choice([0, 1, 77, 79, len(img) - 1, len(img), len(img) + 5, 2**31, 2**32, 2**62])))
+            else:
+                b = bytearray(img)
+                at = rng.choice(list(range(0, 30)) + [33, 34, 35, 36, 37, 38, 39, 40, 41, 45] + list(range(46, 54)) + [60, 61] + list(range(62, 78)))
+                b[at] ^= 1 << rng.randrange(8)
+                variants.append(bytes(b))
+        for v in variants:
+            ops.append("openraw hex=%s" % hx(v))
+            ops.append("fileinfo fh=0")
+            ops.append("close")
+        return {"name": name, "ops": ops, "sticky": 1}
+
     def corpus(self, ctx):
         c = []
         # one-key index; probes below / above; prefixes
@@ -294,27 +368,34 @@ class C06(Prop):
         rng = ctx.rng
         quick = ctx.tier == "quick"
         out = []
-        n = 140 if quick else 1500
+        n = 900 if quick else 6000
+        self.stats = {"modes": {}, "nkeys": [], "nalias": [], "nfiles": [], "ops": 0}
         for c in range(n):
             r = rng.random()
-            nfiles = rng.choice([1, 1, 2, 3, 16, 17, 40, rng.randint(1, 40)])
+            nfiles = rng.choice([1, 1, 2, 3, 15, 16, 17, 40, rng.randint(1, 40)])
             if r < 0.08:
                 nkeys = rng.choice([0, 1, 2])
             elif r < 0.75:
                 nkeys = rng.randint(1, 40 if quick else 120)
-            elif r < 0.97:
-                nkeys = rng.randint(40, 250 if quick else 1200)
+            elif r < 0.985:
+                nkeys = rng.randint(40, 300 if quick else 1000)
             else:
-                nkeys = rng.randint(300, 700) if quick else rng.randint(2000, 5000)
+                nkeys = rng.randint(600, 2000) if quick else rng.randint(2000, 5000)
             nalias = 0 if rng.random() < 0.25 else rng.randint(0, max(1, nkeys if rng.random() < 0.7 else nkeys // 4))
-            if not quick and r >= 0.97 and rng.random() < 0.5:
+            if not quick and r >= 0.985 and rng.random() < 0.5:
                 nalias = rng.randint(1000, 5000)
             m = rng.random()
             mode = "both" if m < 0.45 else "ext" if m < 0.6 else "int" if m < 0.8 else "dupP" if m < 0.9 else "dupA"
             if nkeys == 0 and mode in ("dupP", "dupA"):
                 mode = "both"
-            out.append(self.gen_case(rng, "gen%d-%s" % (c, mode), nfiles, nkeys, nalias, mode,
-                                     probe_limit=40 if nkeys > 100 else 80))
+            case = self.gen_case(rng, "gen%d-%s" % (c, mode), nfiles, nkeys, nalias, mode,
+                                 probe_limit=40 if nkeys > 100 else 80)
+            out.append(case)
+            st = self.stats
+            st["modes"][mode] = st["modes"].get(mode, 0) + 1
+            st["nkeys"].append(nkeys); st["nalias"].append(nalias); st["nfiles"].append(nfiles); st["ops"] += len(case["ops"])
+        for c in range(40 if quick else 400):
+            out.append(self.gen_malformed(rng, "malformed%d" % c))
         return out
 
     # ------------------------------------------------------------------ oracle on the implementation's output
@@ -329,6 +410,7 @@ class C06(Prop):
     def monitor(self, ctx, case, out):
         """The property, stated on what the library returned (independent of the Lean model)."""
         files, subseq, pk, al = [], {}, [], []
+        files_full = []
         ext = False
         cur = None           # what the index on disk should contain: dict or None
         isopen = None
@@ -336,19 +418,21 @@ class C06(Prop):
         def fail(what, key=None):
             return Failure("monitor", what, key=key)
         for op, l in zip(case["ops"], out):
-            if l.startswith(("fault", "atexit")):
-                return None     # reported by the engine as a fault
+            if l.startswith(("fault", "atexit", "skipped-after")):
+                return None     # reported by the engine as a fault (or the watchdog gave up after repeated hangs)
             name, a = kv(op)
             st = l.split()[0] if l else ""
             if name != "new" and st == "bad-op":
                 return None         # ill-formed history
             if name == "new":
                 files, subseq, pk, al, ext = [], {}, [], [], False
+                files_full = []
                 if st != "ok": return fail("esl_newssi_Open returned %s" % st)
             elif name == "addfile":
                 nm = unhx(a["name"])
                 if l != "ok fh=%d" % len(files): return fail("AddFile #%d answered %r" % (len(files), l))
                 files.append((nm.split(b"/")[-1], int(a["fmt"])))
+                files_full.append((nm, int(a["fmt"])))
             elif name == "setsubseq":
                 if int(a["fh"]) >= len(files) or int(a["bpl"]) == 0 or int(a["rpl"]) == 0:
                     return None     # ill-formed history (only a shrunk case can get here)
@@ -382,7 +466,7 @@ class C06(Prop):
                     if f.get("file") != "1": return fail("Write returned ok but there is no index file")
                     if cross:
                         return fail("Write accepted an alias equal to a primary key (cross-class duplicate)", key=KNOWN_CROSS)
-                    cur = {"files": list(files), "subseq": dict(subseq), "pk": {k[0]: k[1:] for k in pk},
+                    cur = {"files": list(files), "files_full": list(files_full), "subseq": dict(subseq), "pk": {k[0]: k[1:] for k in pk},
                            "al": dict(al), "sorted": sorted(pks)}
                     sig = (tuple(files), tuple(sorted(subseq.items())), tuple(sorted(pk)), tuple(sorted(al)))
                     for s2, n2, h2, e2 in hashes:
@@ -390,10 +474,17 @@ class C06(Prop):
                             return fail("same index contents gave different index bytes (external=%s vs external=%s): n=%s h=%s vs n=%s h=%s"
                                         % (e2, ext, n2, h2, f.get("n"), f.get("h")))
                     hashes.append((sig, f.get("n"), f.get("h"), ext))
-                    if "hex" in f and cur is not None:
+                    if cur is not None and int(f.get("n", "0")) <= 300000:
                         exp = self.expected_bytes(cur)
-                        if exp is not None and unhx(f["hex"]) != exp:
-                            return fail("index bytes differ from the documented layout")
+                        if "hex" in f:
+                            if unhx(f["hex"]) != exp:
+                                return fail("index bytes differ from the documented SSI layout")
+                        elif (str(len(exp)), "%016x" % fnv64(exp)) != (f.get("n"), f.get("h")):
+                            return fail("index bytes differ from the documented SSI layout (n=%s h=%s, expected n=%d h=%016x)"
+                                        % (f.get("n"), f.get("h"), len(exp), fnv64(exp)))
+            elif name == "openraw":
+                isopen = None       # malformed-index stream: only model = implementation is checked
+                cur = None
             elif name == "open":
                 if cur is None:
                     if st == "ok": return fail("Open succeeded although no index file should exist")
@@ -456,10 +547,20 @@ class C06(Prop):
 
     def expected_bytes(self, cur):
         """documented SSI v3 layout (independent re-implementation in Python, used by the monitor on small indices)"""
-        return None
+        return ssi_image(cur["files_full"], cur["subseq"], cur["pk"], cur["al"])
 
     def extra_evidence(self, ctx):
-        return {}
+        st = getattr(self, "stats", None)
+        if not st:
+            return {}
+        def q(v):
+            v = sorted(v)
+            return {"min": v[0], "median": v[len(v) // 2], "p95": v[int(len(v) * 0.95)], "max": v[-1]} if v else {}
+        return {"input_distribution": {"build_modes": st["modes"], "primary_keys_per_index": q(st["nkeys"]), "aliases_per_index": q(st["nalias"]),
+                                       "files_per_index": q(st["nfiles"]), "total_ops": st["ops"],
+                                       "malformed_index_cases": 40 if ctx.tier == "quick" else 400,
+                                       "key_families": "independent / shared prefix / prefix chain / last-byte variants / punctuation around TAB-space / lengths 198-200",
+                                       "offsets": "boundary values 0,1,2^31-1,2^31,2^32-1,2^32,2^53,2^62,2^63-1 + uniform 63-bit + small"}}
 
 
 SPEC = C06()
